@@ -1,6 +1,7 @@
 import Mp.GoVal
 import Mp.Fold
 import Mp.Json
+import Mp.JsonOut
 /-! Prototype: mpath's evaluator (post-repair semantics) over GoVal. Core-only. -/
 namespace Mp
 
@@ -351,6 +352,14 @@ def pureFunc (name : String) (ps : List Prm) (val : GoVal) : Option Out :=
          | some none => .err
          | some (some m) => .ok m)
       | _ => .err)
+  -- funcs.go func_AsJSON + json.Marshal (Mp/JsonOut.lean; floats, structs, []byte and text that is not ASCII are declined)
+  | "AsJSON" => some (
+      if !count0 then .err else
+      if isEmptyValue (RV.of val) then .ok (.str false []) else
+      match GoJson.marshal val with
+      | .ok t => .ok (.str false t)
+      | .bad => .err
+      | .decline => .unmodelled)
   | "Add" => some (decOp Dec.add false (fun _ _ => true))
   | "Subtract" => some (decOp Dec.sub false (fun _ _ => true))
   | "Multiply" => some (decOp Dec.mul false (fun d p => inI32 (d.exp + p.exp)))   -- the decimal type holds its exponent in 32 bits: a product outside that range is an error
